@@ -68,6 +68,11 @@ pub const LEAVES: &[(&str, &str)] = &[
     ("F:eval-syntax-error", "eval 'if'"),
     ("F:unset-readonly", "readonly ro2; unset ro2"),
     // a prefix assignment whose own evaluation fails, before the command runs
+    // an external command that cannot be started (path with a slash: missing, a directory, not executable)
+    ("F:exec-missing-path", "./no-such-program"),
+    ("F:exec-directory", "/"),
+    ("F:exec-not-executable", "./inc.sh"),
+    ("F:exec-missing-path-tmp-assign", "x=tmp ./no-such-program"),
     ("F:tmp-assign-arith-error", "x=$((1/0)) vtrue"),
     ("F:tmp-assign-index-error", "ta[1/0]=x vtrue"),
     ("F:tmp-assign-compound-to-element", "ta[0]=(1 2) vtrue"),
